@@ -116,6 +116,14 @@ def main(chk):
                    what="BothSides fails once a list collection has held the same child twice: the backref removes / keeps one occurrence "
                         "(e.g. p1.children=[c1,c1]; p2.children.append(c1) -> c1 still in p1.children while c1.parent is p2; "
                         "p1.children.pop() of one of two occurrences clears c1.parent). Holds on every duplicate-free history (BothSides_NoDup).")]
+    expose.append(dict(name="slice-hasparent", casc="orphan", consts=oc.consts("orphan", 2, 3, acts=["Append", "Reverse"], init="loaded"), inv="MemberNotOrphan",
+                       sig={"scope": "extended-slice-assignment-on-a-list"},
+                       what="p.children[::-1] = list(p.children) (any extended-slice assignment = one __setitem__ per index, the list holds a member twice "
+                            "in between): the remove event for one of two occurrences keeps c.parent (has_dupes) but still calls sethasparent(False), so a "
+                            "child that is in p.children with c.parent is p is flagged parentless. With delete-orphan the next flush DELETEs it although it "
+                            "never left the collection; without it, if another flushed parent has the child in its removed history, the FK is set by one "
+                            "parent and cleared by the other in set-iteration order (named deviation NondetFk). After commit + reload the child is gone "
+                            "from the collection it was in before the flush."))
     st = oc.run_suite(chk, rng, configs, ACTS, deep=deep, expose=expose, nontrivial=nontrivial)
     one_to_one(chk, rng, st)
     many_to_many(chk, rng, st)
